@@ -139,7 +139,12 @@ func runC14(e *Engine, res *EpisodeResult) {
 			// one more active call: the helper literal, called on the marker's own line
 			want = append([]c14loc{{file: mk.File, line: mk.Line}}, want...)
 		}
-		if locs[0].file != want[0].file || locs[0].line != want[0].line {
+		inStmt := locs[0].file == want[0].file && locs[0].line == want[0].line
+		if mk.Last > 0 && locs[0].file == mk.File && locs[0].line >= mk.First && locs[0].line <= mk.Last {
+			inStmt = true // multi-line statement: any of its lines lies within it
+			want[0].line = locs[0].line
+		}
+		if !inStmt {
 			e.violate("C14.location", "%s: reported location %s, the failing statement is at %s (line %q)", what, locs[0], want[0], srcLine(&m, want[0]))
 			return
 		}
